@@ -35,7 +35,7 @@ def gen_action(R, prof, nn, me):
         m = R.random()
         msg = R.randrange(20)
         if m < prof.get("bad_send", 0.15):
-            return ("send", msg, _pick(R, [me, nn, nn + 3, None, -1, -1, -2, 1000]))   # malformed destinations
+            return ("send", msg, _pick(R, [me, nn, nn + 3, None, -1, -1, -2, 1000, 0.5, 1.5, "1", "0"]))   # malformed destinations
         others = [i for i in range(nn) if i != me]
         return ("send", msg, _pick(R, others) if others else me)
     if k == "bcast":
